@@ -209,6 +209,8 @@ class _Book(PyModel):
         self._sheets = sheets
         self.defined_names = names
         self.worksheets = list(sheets.values())
+        import datetime as _dtm
+        self.epoch = _dtm.datetime(1899, 12, 30)        # openpyxl: WINDOWS_EPOCH, or MAC_EPOCH for workbooks saved with the 1904 date system
 
     def __getitem__(self, name):
         return self._sheets[name]
@@ -222,7 +224,7 @@ class _Sheet(PyModel):
         self.sheet_state = state                 # 'visible' | 'hidden' | 'veryHidden'
 
 
-def _book(sheets, names, cached=None, hidden=None):
+def _book(sheets, names, cached=None, hidden=None, date1904=False):
     """sheets: {sheet: {coordinate: native constant | '=formula'}}; names: {name: 'Sheet!$A$1', (sheet, name): target of a name scoped to that sheet}; cached: {'Sheet!A1': cached result}"""
     import re
     out = {}
@@ -240,7 +242,11 @@ def _book(sheets, names, cached=None, hidden=None):
             d[(int(m.group(2)), col)] = cell
         local = {n[1]: Rec(name=n[1], value=t, hidden=None) for n, t in (names or {}).items() if isinstance(n, tuple) and n[0] == sname}
         out[sname] = _Sheet(dict(sorted(d.items())), sname, local, (hidden or {}).get(sname, 'visible'))
-    return _Book(out, {n: Rec(name=n, value=t, hidden=None) for n, t in (names or {}).items() if not isinstance(n, tuple)})
+    book = _Book(out, {n: Rec(name=n, value=t, hidden=None) for n, t in (names or {}).items() if not isinstance(n, tuple)})
+    if date1904:
+        import datetime as _dtm
+        book.epoch = _dtm.datetime(1904, 1, 1)
+    return book
 
 
 class WorkbookFailed(Exception):
@@ -259,7 +265,7 @@ def _short(cells, limit=420):
 
 
 class Workbook:
-    def __init__(self, ctx, cells=None, models=None, world=None, sheets=None, names=None, cached=None, ignore_sheets=None, max_items=None, max_depth=None, hidden=None, ignore_hidden=None):
+    def __init__(self, ctx, cells=None, models=None, world=None, sheets=None, names=None, cached=None, ignore_sheets=None, max_items=None, max_depth=None, hidden=None, ignore_hidden=None, date1904=False):
         self.ctx = ctx
         self.world = world if world is not None else World()
         self.world.max_depth = max_depth or 150
@@ -279,7 +285,7 @@ class Workbook:
         mm = ctx.mod('model')
         if sheets is not None:
             # the xlsx path: Reader over a modelled openpyxl workbook, parse_archive (defined names, ranges), build_code
-            book = _book(sheets, names, cached, hidden)
+            book = _book(sheets, names, cached, hidden, date1904)
             self.models['ext:openpyxl.load_workbook'] = lambda *a, **k: book
             self.models.setdefault('pkg:patch:openpyxl_WorksheetReader_patch', lambda *a, **k: None)
             if ignore_hidden is not None:
